@@ -370,8 +370,8 @@ def run(ctx):
         parsed_statement_layer(ctx, lk, text, entries, errors, options)
         before = audit_fingerprint(shared)
         entries_before = ledgers.entries_snapshot(entries)
-        fixed = [(0, 0), (28, 29), (0, 3), (8, 8), (12, 13), (14, 15), (15, 16), (19, 19), (20, 21), (17, 18), (24, 25), (22, 23), (26, 27), (10, 1), (9, 9), (3, 3), (8, 9), (0, 1), (10, 2),
-                 (11, 2), (12, 12), (13, 12), (21, 20), (17, 17)]
+        fixed = [(0, 0), (10, 1), (28, 29), (0, 3), (11, 2), (8, 8), (12, 13), (14, 15), (15, 16), (19, 19), (20, 21), (17, 18), (24, 25), (22, 23), (26, 27), (9, 9), (3, 3), (8, 9), (0, 1), (10, 2),
+                 (12, 12), (13, 12), (21, 20), (17, 17)]
         pairs = rng.shuffle(list(itertools.product(range(len(QUERIES)), repeat=2)))
         if not ctx.thorough():
             pairs = pairs[:12]
